@@ -102,7 +102,7 @@ func replay(r *vk.Run) {
 		machinery(r, "cannot load replay: %v", err)
 		return
 	}
-	c := &ctx{r: r}
+	c := &ctx{r: r, verbose: true}
 	defer c.flush()
 	switch kind {
 	case "decode", "dump":
